@@ -14,6 +14,34 @@ SOLVEUNC = "pyyeti/ode/solveunc.py"
 COEFS = ("F", "G", "A", "B", "Fp", "Gp", "Ap", "Bp")
 
 
+def _not_lowered(*vals):
+    """one of the values is Unknown, or is computed through a function the evaluator neither models nor follows"""
+    for v in vals:
+        for x in (v if isinstance(v, tuple) else (v,)):
+            if is_unknown(x) or (isinstance(x, F.Rat) and _unmodelled(x)):
+                return True
+    return False
+
+
+def _chk(ctx, ok, label, where, detail=None, vals=()):
+    """ctx.check, except that a failing obligation whose computed values were not lowered is an ANALYSIS-ERROR (never a violation)"""
+    if not ok and _not_lowered(*vals):
+        ctx.error(label + ": the computed value was not lowered", where, detail if detail is not None else repr(vals)[:300])
+    else:
+        ctx.check(ok, label, where, detail)
+
+
+def _unmodelled(v, *expected):
+    """names of the opaque applications `call:f(...)` (a function the evaluator neither models nor follows) inside a computed value that the expected
+    value does not contain: such a value is *not lowered* - the obligation is an ANALYSIS-ERROR, never a violation"""
+    import re
+    pat = re.compile(r"call:([\w.]+)\(")
+    have = set(pat.findall(repr(v)))
+    for w in expected:
+        have -= set(pat.findall(repr(w)))
+    return sorted(have)
+
+
 # ---------------------------------------------------------------------------
 # C01-R1  closed-form coefficient identities (values extracted per regime by c01_coef / c01_ev.ModeEv)
 def _ode_identities(c, par):
@@ -74,6 +102,8 @@ def r1_coef_identities(ctx):
                 c, par, ev = run_su_coef(ctx, fn, regime, m_none)
                 for x in COEFS:
                     need(c[x], f"{tag} coefficient {x}")
+                    if _unmodelled(c[x]):
+                        raise Unsupported(f"{tag} coefficient {x} is computed through {_unmodelled(c[x])}, which the evaluator does not model")
             except RegimeRaises as e:
                 ctx.fail(f"{tag}: get_su_coef returns coefficients for a mode of this regime", e.node,
                          "the evaluation for the generic mode of this regime ends in a `raise` (the mode is selected by no regime mask, or by two)")
@@ -476,9 +506,9 @@ def r4_frame_typing(ctx):
             wantb = [Usym * bsym * Usym] if bdim == 1 else [F.fn("mm", Usym, bsym) * Usym, Usym * F.fn("mm", bsym, Usym)]
             ok = isinstance(ret, tuple) and len(ret) == 3 and S1.same(ret[0], NONE) and S1.same(ret[2], F.sym("w")) and any(S1.same(ret[1], w_) for w_ in wantb) \
                 and S1.same(S1.env("self.phi"), Usym)
-            ctx.check(ok, f"_do_pre_eig (m {mcase}, b {bdim}-D): phi = eigenvectors of (k, m); returns m -> None, k -> eigenvalues, b -> phi.T b phi "
-                          + ("(a damping vector scales the rows of phi)" if bdim == 1 else "(a damping matrix is multiplied from both sides)"), f_pre,
-                      None if ok else repr(ret))
+            _chk(ctx, ok, f"_do_pre_eig (m {mcase}, b {bdim}-D): phi = eigenvectors of (k, m); returns m -> None, k -> eigenvalues, b -> phi.T b phi "
+                 + ("(a damping vector scales the rows of phi)" if bdim == 1 else "(a damping matrix is multiplied from both sides)"), f_pre,
+                 None if ok else repr(ret), vals=(ret if isinstance(ret, tuple) else (ret,)) + (S1.env("self.phi"),))
         attrs = {k: v for k, v in S1.ev.env.items() if k.startswith("self.") and not is_unknown(v)}
         env = dict(attrs)
         env.update({"d0": F.sym("d0"), "v0": F.sym("v0"), "force": F.sym("f")})
@@ -512,21 +542,27 @@ def r4_frame_typing(ctx):
             else:
                 res = norm(got) - U * M * 0 - U * F.sym(usr) if False else norm(got) - U * F.sym(usr)   # phi.T f
             ok = res.is_zero()
+            if not ok and _unmodelled(got):
+                ctx.error(f"_init_dva (pre_eig, m {mcase}): argument `{nm}` of _init_dv is computed through {_unmodelled(got)}, which the evaluator does not model",
+                          calls[0][3], repr(got)[:300])
+                continue
             ctx.check(ok, f"_init_dva (pre_eig, m {mcase}): user array `{usr}` reaches _init_dv as " +
                       ("phi^-1 " + usr if kind == "inv" else "phi.T " + usr) + " (physical -> modal coordinates)", calls[0][3],
                       None if ok else {"value passed": repr(got), "with u = M^-1/2": repr(norm(got)),
                                        "witness": f"coupled system, pre_eig=True, non-identity mass, non-zero {usr}: sol.{usr[0]}[:, 0] != {usr}"},
                       key=f"C01-R4|_BaseODE._init_dva|{usr} not mapped by phi")
         ret = S2.ret()
-        ok = isinstance(ret, tuple) and len(ret) == 4 and not is_unknown(ret[3]) and (norm(ret[3]) - U * F.sym("f")).is_zero()
-        ctx.check(ok, f"_init_dva (pre_eig, m {mcase}): the force returned to the solver is the modal force phi.T f", f_dva, None if ok else repr(ret))
+        ok = isinstance(ret, tuple) and len(ret) == 4 and not is_unknown(ret[3]) and isinstance(ret[3], F.Rat) and (norm(ret[3]) - U * F.sym("f")).is_zero()
+        _chk(ctx, ok, f"_init_dva (pre_eig, m {mcase}): the force returned to the solver is the modal force phi.T f", f_dva, None if ok else repr(ret),
+             vals=(ret[3],) if isinstance(ret, tuple) and len(ret) == 4 else ())
         # the way back
         for q in ("_BaseODE._solution", "_BaseODE._solution_freq"):
             f2 = ctx.src.func(O.BASE, q)
             S3 = Sem(ctx, f2, call=call, env=dict(attrs), erase_T=True, cond=is_none_oracle({"self.pre_eig": True, "self.h": True}))
             ns = S3.calls("SimpleNamespace")
             ok = len(ns) == 1 and all(S3.same(ns[0][2].get(x), Usym * F.sym(x)) for x in "dva")
-            ctx.check(ok, f"{q} (m {mcase}): d, v, a are mapped back to physical coordinates with phi when pre_eig", f2)
+            _chk(ctx, ok, f"{q} (m {mcase}): d, v, a are mapped back to physical coordinates with phi when pre_eig", f2,
+                 vals=tuple(ns[0][2].get(x) for x in "dva") if len(ns) == 1 else ())
     # and nothing is mapped when pre_eig is off
     S4 = Sem(ctx, f_dva, env={"d0": F.sym("d0"), "v0": F.sym("v0"), "force": F.sym("f")},
              cond=is_none_oracle({"self.pre_eig": False, "self.rfsize": False}),
@@ -820,6 +856,9 @@ def _hist_steps(ctx, label, where, got_cols, want_cols, names):
         for g, w, nm in zip(got, want, names):
             if g is None or is_unknown(g) or isinstance(g, tuple) or not isinstance(g, F.Rat):
                 return None, {"sample": j, "quantity": nm, "not lowered": repr(g)[:300], "recurrence": repr(w)[:300]}
+            if not g.equals(w) and _unmodelled(g, w):
+                return None, {"sample": j, "quantity": nm, "computed through a function the evaluator does not model": _unmodelled(g, w),
+                              "computed": repr(g)[:300]}
             if not g.equals(w):
                 return False, {"sample": j, "quantity": nm, "computed": repr(g)[:300], "recurrence": repr(w)[:300]}
     return True, None
@@ -857,7 +896,8 @@ def r8_solveexp1(ctx):
         return NotImplemented
     S0 = Sem01(ctx, init, call=call0, truth={"h": True}, env={"A": F.sym("A"), "h": F.sym("h"), "order": F.sym("order")}, inline=inl)
     ok = all(S0.same(S0.env(f"self.{x}"), F.sym(x)) for x in ("E", "P", "Q", "A", "h", "order"))
-    ctx.check(ok, "SolveExp1.__init__: E, P, Q, A, h, order are stored under their own names", init, None if ok else {x: repr(S0.env(f"self.{x}")) for x in "EPQA"})
+    _chk(ctx, ok, "SolveExp1.__init__: E, P, Q, A, h, order are stored under their own names", init, None if ok else {x: repr(S0.env(f"self.{x}")) for x in "EPQA"},
+         vals=tuple(S0.env(f"self.{x}") for x in ("E", "P", "Q", "A", "h", "order")))
     NT = 4
     f = tuple(F.sym(f"f{k}") for k in range(NT))
     E_, P_, Q_, A_ = F.sym("E"), F.sym("P"), F.sym("Q"), F.sym("A")
@@ -883,6 +923,8 @@ def r8_solveexp1(ctx):
             _hcheck(ctx, ok, f"{tag}: y_j = E y_j-1 + P f_j-1" + (" + Q f_j" if order == 1 else "") + " for every step of a generic history", ts, detail)
             vv = ns[0][2].get("v")
             ok = isinstance(vv, tuple) and len(vv) == NT and all(S.same(x, fk + A_ * w) for x, fk, w in zip(vv, f, want))
+            if not ok and (not isinstance(vv, tuple) or any(is_unknown(x) or _unmodelled(x) for x in vv)):
+                ok = None          # not lowered (an unknown column / a function the evaluator does not model): ANALYSIS-ERROR
             _hcheck(ctx, ok, f"SolveExp1.tsolve (order {order}): returns d and v = f + A d (the first-order equation itself)", ns[0][3], None if ok else repr(vv)[:300])
 
 
@@ -1028,7 +1070,7 @@ def r9_solveexp2(ctx):
         else:
             ctx.error(label + ": the selection was not recognised as a block of E", init, repr(got)[:300])
     ok = S0.same(S0.env("self.P"), F.sym("P")) and S0.same(S0.env("self.Q"), F.sym("Q"))
-    ctx.check(ok, "SolveExp2.__init__: P and Q are stored under their own names", init)
+    _chk(ctx, ok, "SolveExp2.__init__: P and Q are stored under their own names", init, vals=(S0.env("self.P"), S0.env("self.Q")))
     # a system without dynamic equations (every mode statically solved: ksize = 0) has no state matrix: the exponential must not be requested
     asked = []
 
